@@ -12,6 +12,8 @@ MJY = units.BASE['mJy']
 
 
 def make_models(c, variant, prefix='mod'):
+    variant, _, fu = str(variant).partition('/')
+    MJY = units.BASE[fu or 'mJy']           # (the unit the grid of model fluxes is held in; shadows the module constant on purpose)
     M, N = c.int('n_models'), c.int('n_filters')
     c.assume([M >= 0, N >= 0])
     names = c.array(prefix + '_names', (M,), 'int')
@@ -50,7 +52,7 @@ def fluxes_positive(c, models):
 class LogFluxesMJy(Contract):
     name = MODELS + '.log_fluxes_mJy'
     properties = ('C01', 'C02', 'C04')
-    variants = ('2d', '3d')
+    variants = ('2d', '3d', '2d/Jy')        # (the grid held in mJy / in Jy)
 
     def setup(self, c, variant):
         return dict(self=make_models(c, variant))
